@@ -62,9 +62,12 @@ def scenarios(ctx):
             n = len(ch["sites"])
             for si in range(n):
                 if rng.random() < 0.5:
-                    kind = rng.choice(["multi", "symbolic", "dup", "homsnv", "weirdgt", "hetsnv_nopath"])
-                    pos0 = PW.SP * (si + 1) + (0 if kind == "dup" else rng.choice([14, 20, 26]))
-                    extra.append({"chrom": ci, "pos0": pos0, "kind": kind, "order": len(extra) + 1})
+                    kind = rng.choice(["multi", "symbolic", "dup", "homsnv", "weirdgt", "hetsnv_nopath", "multi_before", "symbolic_before"])
+                    at_site = kind in ("dup", "multi_before", "symbolic_before")
+                    pos0 = PW.SP * (si + 1) + (0 if at_site else rng.choice([14, 20, 26]))
+                    # *_before: an unsupported record at the SAME position as a phasable site, listed in front of it
+                    order = -(len(extra) + 1) if kind.endswith("_before") else len(extra) + 1
+                    extra.append({"chrom": ci, "pos0": pos0, "kind": kind, "order": order})
         w["decor"] = extra
         w["prephased"] = prephased
         o = {"tag": rng.choice(["PS", "HP"]), "only_snvs": rng.random() < 0.2, "max_coverage": rng.choice([15, 3])}
@@ -126,7 +129,7 @@ def _decorate(wd, d, paths):
         p0 = x["pos0"]
         b = ref[p0]
         other = [c for c in "ACGT" if c != b]
-        k = x["kind"]
+        k = x["kind"].replace("_before", "")
         gts = {"multi": ["1/2", "0/1", "0/2", "2/2"], "symbolic": ["0/1", "1/1", "0/0"], "dup": ["0/1", "0/0", "1/1"],
                "homsnv": ["0/0", "1/1"], "weirdgt": ["./.", "0/.", "./1", "./."], "hetsnv_nopath": ["0/1"]}[k]
         alt = {"multi": other[0] + "," + other[1], "symbolic": "<DEL>"}.get(k, other[0])
